@@ -1,6 +1,7 @@
-//! Coverage-guided corpus generation: libFuzzer input -> one op line of the line protocol -> the
-//! harness's own `dispatch` (the real crate, in-process). Nothing is decided here: the corpus is
-//! later replayed through harness *and* model driver by the property checks.
+//! Coverage-guided differential corpus generation: libFuzzer input -> one op line of the line protocol -> the
+//! harness's own `dispatch` (the real crate, in-process) *and* the Lean model driver (linked in through
+//! DriverFFI.lean + shim.c). Inputs reaching new coverage, panicking, or on which the two answers differ are kept.
+//! Nothing is decided here: the kept inputs are replayed through harness and model driver by the property checks.
 //!
 //! Input layout (mirrored by tools/cg.py `decode`):
 //!   byte 0          op index (mod number of ops)
@@ -108,20 +109,47 @@ pub fn line_of(data: &[u8]) -> Option<String> {
     Some(line)
 }
 
+extern "C" {
+    fn model_handle(line: *const std::os::raw::c_char) -> *mut std::os::raw::c_char;
+    fn model_free(p: *mut std::os::raw::c_char);
+}
+
+/// the Lean model's answer to one op line (the model driver linked in-process)
+fn model(line: &str) -> String {
+    let c = std::ffi::CString::new(line).expect("op lines contain no NUL");
+    unsafe {
+        let p = model_handle(c.as_ptr());
+        let s = std::ffi::CStr::from_ptr(p).to_string_lossy().into_owned();
+        model_free(p);
+        s
+    }
+}
+
+fn save(kind: &str, data: &[u8]) {
+    if let Ok(dir) = std::env::var("CG_PANIC_DIR") {
+        let mut hsh: u64 = 1469598103934665603;
+        for &b in data {
+            hsh = (hsh ^ b as u64).wrapping_mul(1099511628211);
+        }
+        let _ = std::fs::write(format!("{}/{}-{:016x}", dir, kind, hsh), data);
+    }
+}
+
 static INIT: Once = Once::new();
+static DIFFS: std::sync::atomic::AtomicUsize = std::sync::atomic::AtomicUsize::new(0);
 
 fuzz_target!(|data: &[u8]| {
     INIT.call_once(|| std::panic::set_hook(Box::new(|_| {})));
     if let Some(line) = line_of(data) {
         let out = h::handle(&line);
         if out.starts_with("panic") || out.contains("panic") {
-            if let Ok(dir) = std::env::var("CG_PANIC_DIR") {
-                let mut hsh: u64 = 1469598103934665603;
-                for &b in data {
-                    hsh = (hsh ^ b as u64).wrapping_mul(1099511628211);
-                }
-                let _ = std::fs::write(format!("{}/panic-{:016x}", dir, hsh), data);
-            }
+            save("panic", data);
+        }
+        // differential: the model answers the same line in-process. Any textual difference is only *recorded* (at most
+        // 300 per process); the property checks replay the recorded inputs and judge them under their projections.
+        let m = model(&line);
+        if out.split('\t').next().unwrap_or("") != m && DIFFS.fetch_add(1, std::sync::atomic::Ordering::Relaxed) < 300 {
+            save("diff", data);
         }
         std::hint::black_box(out);
     }
